@@ -1,0 +1,33 @@
+//go:build verif
+
+package deque
+
+// This file is only compiled with the "verif" build tag. It gives external verification harnesses a
+// read-only view of the deque's private state.
+
+// VerifState describes the ring buffer.
+type VerifState struct {
+	// True if the backing buffer has never been allocated.
+	NilBuf bool
+	// len() of the backing buffer.
+	Cap   int
+	Front int
+	Back  int
+	Gen   int
+}
+
+// VerifState returns the private fields of d.
+func (d *Deque[T]) VerifState() VerifState {
+	return VerifState{
+		NilBuf: d.a == nil,
+		Cap:    len(d.a),
+		Front:  d.front,
+		Back:   d.back,
+		Gen:    d.gen,
+	}
+}
+
+// VerifSlots returns a copy of the whole backing buffer, including the slots that hold no item.
+func (d *Deque[T]) VerifSlots() []T {
+	return append([]T(nil), d.a...)
+}
